@@ -60,3 +60,16 @@ Proof.
   split; [exact (proj1 H) | exact (proj2 (proj2 (proj2 (proj2 H))))].
 Qed.
 Print Assumptions C05_percall_no_deadlock.
+
+(* and the resolver in front of the per-call-process executor *)
+Theorem C05_resolver_percall_no_deadlock :
+  forall c n prog d,
+    dinner c = IStep -> StepLive.fits (dx c) -> (forall i, xraises (dx c) i = false) ->
+    wf_prog n prog -> wf_deps c n -> dreach c (dinit n prog) d ->
+    denabled c d = [] ->
+    main (dbase d) = MEnd /\ rp d = RDone.
+Proof.
+  intros c n prog d H1 H2 H3 H4 H5 H6 H7.
+  pose proof (dep_rest_step c n prog d H1 H2 H3 H4 H5 H6 H7) as H. split; [exact (proj1 H) | exact (proj2 (proj2 (proj2 (proj2 H))))].
+Qed.
+Print Assumptions C05_resolver_percall_no_deadlock.
